@@ -345,8 +345,45 @@ theorem good_of_state (vars : List String) (fs : FnScope) (c : OpCall)
   have hst := stateOk_of vars fs vars c hn hg hs hp
   ⟨hst.lengths, hst.positions, har, hno, hst.distinct hnd, hst.pure, setterDeclares_of vars fs c hst hs⟩
 
+theorem takeWhile_decls_append (decls rest : List Stmt) (h : ∀ s ∈ decls, isDecl s = true) :
+    (decls ++ rest).takeWhile isDecl = decls ++ rest.takeWhile isDecl := by
+  induction decls with
+  | nil => rfl
+  | cons d ds ih =>
+    rw [List.cons_append, List.takeWhile_cons, h d (List.mem_cons_self ..)]
+    simp only [if_true, List.cons_append]
+    rw [ih (fun s hs => h s (List.mem_cons_of_mem _ hs))]
+
+theorem mem_declared_prefix (fs : FnScope) (vars : List String) (rest : List Stmt) (v : String) (hv : v ∈ vars)
+    (hs : BlockVars.isComposite v = false) : v ∈ declaredNames (nonlocalDecls fs vars ++ rest) := by
+  unfold declaredNames
+  rw [takeWhile_decls_append _ _ isDecl_decl, List.flatMap_append]
+  exact List.mem_append_left _ (mem_declared_decls fs vars v hv hs)
+
+theorem callbacksDeclare_of (vars : List String) (fs : FnScope) (c : OpCall) (hst : StateOk vars c)
+    (hb : ∃ rb, c.body.body = nonlocalDecls fs vars ++ rb)
+    (hsnd : c.kind ≠ .whileStmt → ∀ f, c.second = some f → ∃ rf, f.body = nonlocalDecls fs vars ++ rf) :
+    CallbacksDeclare c := by
+  refine ⟨_, hst.setter, ?_⟩
+  intro t ht i s ctx heq hsimple
+  obtain ⟨v, hv, rfl⟩ := List.mem_map.mp ht
+  have hq : qnOf v = .sym s := by
+    have := exprQN_qnExpr .store v
+    rw [heq] at this
+    simpa [exprQN] using this.symm
+  have hvs : v = s := by
+    have := qnOf_toString v
+    rw [hq] at this
+    exact this.symm
+  subst hvs
+  obtain ⟨rb, hrb⟩ := hb
+  refine ⟨hrb ▸ mem_declared_prefix fs vars rb v hv hsimple, ?_⟩
+  intro hk f hf
+  obtain ⟨rf, hrf⟩ := hsnd hk f hf
+  exact hrf ▸ mem_declared_prefix fs vars rf v hv hsimple
+
 theorem ifChunk_good {P : OpCall → Prop} (bv : BlockVars.Result)
-    (hP : ∀ c, c.kind = .ifStmt → Good c → c.names = bv.scopeVars.map strConst → c.last = intConst bv.nouts → P c) (fs : FnScope) (test : Expr) (body orelse : List Stmt)
+    (hP : ∀ c, c.kind = .ifStmt → Good c → c.names = bv.scopeVars.map strConst → c.last = intConst bv.nouts → CallbacksDeclare c → P c) (fs : FnScope) (test : Expr) (body orelse : List Stmt)
     (g s b o : String)
     (hgs : g ≠ s) (hgb : g ≠ b) (hgo : g ≠ o) (hsb : s ≠ b) (hso : s ≠ o) (hbo : b ≠ o)
     (hnd : bv.scopeVars.Nodup) (hno : bv.nouts ≤ bv.scopeVars.length)
@@ -379,7 +416,8 @@ theorem ifChunk_good {P : OpCall → Prop} (bv : BlockVars.Result)
     simp only [hgs, hgb, hgo, hsb, hso, hbo, hgs.symm, hgb.symm, hgo.symm, hsb.symm, hso.symm, hbo.symm, if_true,
       if_false, Option.bind_some, Option.pure_def]
     apply AllGood.single
-    refine hP _ rfl ?_ rfl rfl
+    refine hP _ rfl ?_ rfl rfl (callbacksDeclare_of bv.scopeVars fs _ (stateOk_of bv.scopeVars fs bv.scopeVars _ rfl rfl rfl rfl) ⟨_, rfl⟩
+      (fun _ f hf => by cases hf; exact ⟨_, rfl⟩))
     refine good_of_state bv.scopeVars fs _ rfl rfl rfl rfl hnd ?_ ?_
     · simp [Arity, arityOk]
     · intro _
@@ -391,7 +429,7 @@ theorem quiet_ret (e : List Expr) : ∀ s ∈ [Stmt.ret 0 e], Quiet s := by
   simp only [List.mem_singleton] at hs; subst hs; exact ⟨rfl, by simp [emittedStmt]⟩
 
 theorem whileChunk_good {P : OpCall → Prop} (opts test : Expr)
-    (hP : ∀ c, c.kind = .whileStmt → Good c → c.last = opts → whileTest c = some (splice .load test) → P c)
+    (hP : ∀ c, c.kind = .whileStmt → Good c → c.last = opts → whileTest c = some (splice .load test) → CallbacksDeclare c → P c)
     (bv : BlockVars.Result) (fs : FnScope) (body : List Stmt)
     (g s b t : String)
     (hgs : g ≠ s) (hgb : g ≠ b) (hgt : g ≠ t) (hsb : s ≠ b) (hst : s ≠ t) (hbt : b ≠ t)
@@ -416,14 +454,15 @@ theorem whileChunk_good {P : OpCall → Prop} (opts test : Expr)
     simp only [hgs, hgb, hgt, hsb, hst, hbt, hgs.symm, hgb.symm, hgt.symm, hsb.symm, hst.symm, hbt.symm, if_true,
       if_false, Option.bind_some, Option.pure_def]
     apply AllGood.single
-    refine hP _ rfl ?_ rfl ?_
+    refine hP _ rfl ?_ rfl ?_ (callbacksDeclare_of bv.scopeVars fs _ (stateOk_of bv.scopeVars fs bv.scopeVars _ rfl rfl rfl rfl)
+      ⟨_, rfl⟩ (fun hk => absurd rfl hk))
     · refine good_of_state bv.scopeVars fs _ rfl rfl rfl rfl hnd ?_ ?_
       · simp [Arity, arityOk]
       · intro h; cases h
     · simp [whileTest]
 
 theorem forChunk_good {P : OpCall → Prop} (opts target iter : Expr)
-    (hP : ∀ c, c.kind = .forStmt → Good c → c.last = opts → forBodyTarget c = some (splice .store target) → P c)
+    (hP : ∀ c, c.kind = .forStmt → Good c → c.last = opts → forBodyTarget c = some (splice .store target) → CallbacksDeclare c → P c)
     (bv : BlockVars.Result) (fs : FnScope) (body : List Stmt)
     (extraDef : Option (String × Expr)) (g s i b : String)
     (hgs : g ≠ s) (hgb : g ≠ b) (hsb : s ≠ b)
@@ -461,7 +500,8 @@ theorem forChunk_good {P : OpCall → Prop} (opts target iter : Expr)
       simp only [hgs, hgb, hsb, hgs.symm, hgb.symm, hsb.symm, if_true,
         if_false, Option.bind_some, Option.pure_def]
       apply AllGood.single
-      refine hP _ rfl ?_ rfl ?_
+      refine hP _ rfl ?_ rfl ?_ (callbacksDeclare_of bv.scopeVars fs _ (stateOk_of bv.scopeVars fs bv.scopeVars _ rfl rfl rfl rfl)
+        ⟨_, rfl⟩ (fun _ f hf => by cases hf))
       · refine good_of_state bv.scopeVars fs _ rfl rfl rfl rfl hnd ?_ ?_
         · simp [Arity, arityOk]
         · intro h; cases h
@@ -478,7 +518,8 @@ theorem forChunk_good {P : OpCall → Prop} (opts target iter : Expr)
       simp only [hgs, hgb, hsb, hgs.symm, hgb.symm, hsb.symm, heg, hes, heb, heg.symm, hes.symm, heb.symm, if_true,
         if_false, Option.bind_some, Option.pure_def, Option.map_some]
       apply AllGood.single
-      refine hP _ rfl ?_ rfl ?_
+      refine hP _ rfl ?_ rfl ?_ (callbacksDeclare_of bv.scopeVars fs _ (stateOk_of bv.scopeVars fs bv.scopeVars _ rfl rfl rfl rfl)
+        ⟨_, rfl⟩ (fun _ f hf => by cases hf; exact ⟨_, rfl⟩))
       · refine good_of_state bv.scopeVars fs _ rfl rfl rfl rfl hnd ?_ ?_
         · simp [Arity, arityOk]
         · intro h; cases h
@@ -554,7 +595,7 @@ theorem gen_mono {nm : Namer} (root : String) (res : List String) {x : String} (
 attribute [local irreducible] newSymbol
 
 /-- Everything C03 says of one call of the output. -/
-def GoodIn (env : Env) (L : List SourceLoop) (c : OpCall) : Prop := Good c ∧ OptsOk env L c
+def GoodIn (env : Env) (L : List SourceLoop) (c : OpCall) : Prop := Good c ∧ OptsOk env L c ∧ CallbacksDeclare c
 
 theorem emitIf_good (env : Env) (L : List SourceLoop) (fs : FnScope) (nm : Namer) (id : Nat) (test : Expr)
     (body orelse : List Stmt)
@@ -562,7 +603,7 @@ theorem emitIf_good (env : Env) (L : List SourceLoop) (fs : FnScope) (nm : Namer
     (horelse : ∀ pre, AllGood (GoodIn env L) (emittedBlock pre orelse)) :
     ∀ pre, AllGood (GoodIn env L) (emittedBlock pre (emitIf env fs nm id test body orelse).1) := by
   simp only [emitIf]
-  refine ifChunk_good _ (fun c hk hg hn hl => ⟨hg, by simp only [OptsOk, hk]; exact ⟨fs, id, hn, hl⟩⟩) fs test body orelse _ _ _ _
+  refine ifChunk_good _ (fun c hk hg hn hl hcb => ⟨hg, by simp only [OptsOk, hk]; exact ⟨fs, id, hn, hl⟩, hcb⟩) fs test body orelse _ _ _ _
     ?_ ?_ ?_ ?_ ?_ ?_ (BlockVars.blockVars_nodup ..) (BlockVars.blockVars_nouts ..).1 hbody horelse
   · exact (newSymbol_ne (gen_self ..)).symm
   · exact (newSymbol_ne (gen_mono _ _ (gen_self ..))).symm
@@ -576,9 +617,9 @@ theorem emitWhile_good (env : Env) (L : List SourceLoop) (fs : FnScope) (nm : Na
     (hbody : ∀ pre, AllGood (GoodIn env L) (emittedBlock pre body)) :
     ∀ pre, AllGood (GoodIn env L) (emittedBlock pre (emitWhile env fs nm id test body).1) := by
   have hopts : ∀ c : OpCall, c.kind = .whileStmt → Good c → c.last = loopOptions env.dirs id [] →
-      whileTest c = some (splice .load test) → GoodIn env L c := by
-    intro c hk hg hl ht
-    refine ⟨hg, ?_⟩
+      whileTest c = some (splice .load test) → CallbacksDeclare c → GoodIn env L c := by
+    intro c hk hg hl ht hcb
+    refine ⟨hg, ?_, hcb⟩
     simp only [OptsOk, hk]
     exact ⟨_, hL, rfl, hl, ht⟩
   simp only [emitWhile]
@@ -597,9 +638,9 @@ theorem emitFor_good (env : Env) (L : List SourceLoop) (fs : FnScope) (nm : Name
     ∀ pre, AllGood (GoodIn env L) (emittedBlock pre (emitFor env fs nm id target iter body extra).1) := by
   have hopts : ∀ c : OpCall, c.kind = .forStmt → Good c →
       c.last = loopOptions env.dirs id [("iterate_names", strConst (unparseE target))] →
-      forBodyTarget c = some (splice .store target) → GoodIn env L c := by
-    intro c hk hg hl ht
-    refine ⟨hg, ?_⟩
+      forBodyTarget c = some (splice .store target) → CallbacksDeclare c → GoodIn env L c := by
+    intro c hk hg hl ht hcb
+    refine ⟨hg, ?_, hcb⟩
     simp only [OptsOk, hk]
     exact ⟨_, hL, rfl, hl, ht⟩
   cases extra with
